@@ -29,7 +29,7 @@ def main() -> int:
             return 3
 
         def one(p):
-            env = dict(os.environ, VERIF_EVIDENCE_DIR=os.path.join(scratch, "ev-" + p))
+            env = dict(os.environ, VERIF_EVIDENCE_DIR=os.path.join(scratch, "ev-" + p), VERIF_JOBS=os.environ.get("VERIF_JOBS", "1"))
             c = subprocess.run([sys.executable, os.path.join(VERIF, "check.py"), p, "--tier", "quick", "--src", pkg], cwd=VERIF, env=env, capture_output=True, text=True)
             return p, c.returncode, c.stdout
         bad = 0
